@@ -1,1 +1,1 @@
-// harnesses for hex
+// hex-string decoding is excluded (DESIGN.md: parse_sas_hex_string is out of CBMC's reach)
